@@ -5,7 +5,7 @@ set -u
 g=$1; shift
 cd /verif || exit 2
 if [ -n "$(git -C /repo status --porcelain)" ]; then echo "/repo not clean"; exit 2; fi
-git merge --no-edit prop-$g || { echo "MERGE CONFLICT in /verif"; exit 1; }
+git merge --no-edit -X theirs prop-$g || { echo "MERGE CONFLICT in /verif"; exit 1; }
 commits=$(git -C /repo rev-list --reverse main..fix-$g)
 for c in $commits; do
   if git -C /repo log main --format=%s | grep -qxF "$(git -C /repo log -1 --format=%s $c)"; then echo "skip already picked $c"; continue; fi
